@@ -14,11 +14,13 @@ NaN == <<0, 0>>
 IsNaN(a) == a[2] = 0
 (* comparisons through the integer parts first: recorded values may have large numerators (TLC integers are 32 bit, *)
 (* denominators of recorded values are at most 40000)                                                              *)
-Fl(a) == a[1] \div a[2]
+(* total: a comparison involving NaN is false, as for floats (recorded values may be NaN where none is expected)    *)
+Fl(a) == IF a[2] = 0 THEN 0 ELSE a[1] \div a[2]
 Fr(a) == a[1] - Fl(a) * a[2]
-RLt(a, b) == IF Fl(a) # Fl(b) THEN Fl(a) < Fl(b) ELSE Fr(a) * b[2] < Fr(b) * a[2]
-RLe(a, b) == IF Fl(a) # Fl(b) THEN Fl(a) < Fl(b) ELSE Fr(a) * b[2] <= Fr(b) * a[2]
-REq(a, b) == Fl(a) = Fl(b) /\ Fr(a) * b[2] = Fr(b) * a[2]
+Num2(a, b) == a[2] # 0 /\ b[2] # 0
+RLt(a, b) == Num2(a, b) /\ (IF Fl(a) # Fl(b) THEN Fl(a) < Fl(b) ELSE Fr(a) * b[2] < Fr(b) * a[2])
+RLe(a, b) == Num2(a, b) /\ (IF Fl(a) # Fl(b) THEN Fl(a) < Fl(b) ELSE Fr(a) * b[2] <= Fr(b) * a[2])
+REq(a, b) == Num2(a, b) /\ Fl(a) = Fl(b) /\ Fr(a) * b[2] = Fr(b) * a[2]
 RECURSIVE Gcd(_, _)
 Gcd(a, b) == IF b = 0 THEN a ELSE Gcd(b, a % b)
 Abs(x) == IF x < 0 THEN -x ELSE x
@@ -82,7 +84,8 @@ P_Strict(xs, ys)     == \A i, j \in Finite(xs) : RLt(xs[i], xs[j]) => RLt(ys[i],
 P_NaNKept(xs, ys)    == Len(ys) = Len(xs) /\ \A i \in Idx(xs) : IsNaN(xs[i]) <=> IsNaN(ys[i])
 P_Unit(ys)           == \A i \in Finite(ys) : RLe(R(0), ys[i]) /\ RLe(ys[i], R(1))
 P_MinRange(c, ys)    == LET rng == RSub(RMaxOf(c.xs), RMinOf(c.xs))  span == RSub(RMaxOf(ys), RMinOf(ys)) IN
-                        IF RLe(R(c.minrange), rng) THEN REq(span, IF REq(rng, R(0)) THEN R(0) ELSE R(1))
+                        IF Finite(ys) = {} THEN FALSE
+                        ELSE IF RLe(R(c.minrange), rng) THEN REq(span, IF REq(rng, R(0)) THEN R(0) ELSE R(1))
                         ELSE REq(RMul(span, R(c.minrange)), rng)
 P_Continuous(c)      == \A j \in Idx(c.steps) : REq(StepLeftLimit(c.steps, c.scales, j), StepDo1(c.steps, c.scales, R(c.steps[j])))
 P_UnitSlope(c, ys)   == \* recorded values: across consecutive integers the increment is 1/scale of the left bin (continuity at the steps)
@@ -117,7 +120,7 @@ Cases(V, maxn, Scales, StScales) ==
 FarVals == {R(10000), <<1000001, 100>>, <<200001, 20>>, R(10001), NaN}
 (* parameterised: TLC evaluates every constant-level definition without parameters when it starts, in the judging runs too *)
 CaseSet(tier) == IF tier = "quick" THEN Cases({R(-60), R(-15), R(0), R(7), <<61, 2>>, R(60), NaN}, 3, {1, 2, 5}, {1, 2, 5}) \cup Cases(FarVals, 3, {1, 5}, {1, 5})
-           ELSE Cases({R(-60), R(-15), R(0), R(7), <<61, 2>>, R(30), R(60), NaN}, 4, {1, 2, 5, 1000}, {1, 2, 5, 1000}) \cup Cases(FarVals, 4, {1, 5, 1000}, {1, 5})
+           ELSE Cases({R(-60), R(-15), R(0), R(7), <<61, 2>>, R(30), R(60), NaN}, 4, {1, 2, 5, 1000}, {1, 2, 5, 1000}) \cup Cases(FarVals, 4, {1, 5}, {1, 5})
 
 (* ---- jobs ---- *)
 VARIABLES job, done
